@@ -125,6 +125,8 @@ def r5_type_table(prog, res, prop="C02"):
                 fb, felb, flb, sb = vals[6], vals[7], vals[8], vals[11]
                 if sb != L.sexp_sizeof("cpointer") or fb is None or flb is None:
                     continue
+                if "sexp_register_c_type" not in fn.macros(i):
+                    continue        # some other 32-byte type with its own layout (e.g. pollfds)
                 stat.sites += 1
                 stat.obligations += 1
                 if fb == parent_off[0] and flb >= 1 and all(
